@@ -183,6 +183,9 @@ def run_file(case, ctx):
     if any(not single_line(l) for l in lines):
         return  # reported by the roundtrip part
     raw = "".join(l + "\n" for l in lines).encode("utf-8")
+    if lines and not case.get("final_nl", True):
+        raw = raw[:-1]      # a record file written by another tool: the last line has no terminator
+        ctx.label("unterminated-last-record")
 
     def fail(what, msg):
         ctx.fail("record-file/%s" % what, "%s (%s): %s" % (what, cname, msg))
@@ -333,7 +336,7 @@ def strategies(tier):
     EDIT = ["set", "del", "insert", "append", "pop", "get", "insert", "get"]
     file_case = st.sampled_from(sorted(CLASSES)).flatmap(lambda n: st.fixed_dictionaries({
         "kind": st.just("file"), "cls": st.just(n), "records": st.lists(vals(n), max_size=6), "extra": st.lists(vals(n), min_size=1, max_size=3),
-        "mutable": st.sampled_from(["MutableRecordFile", "MutableMemoryMappedRecordFile"]),
+        "mutable": st.sampled_from(["MutableRecordFile", "MutableMemoryMappedRecordFile"]), "final_nl": st.sampled_from([True, True, False]),
         "ops": codes(0, 12).map(lambda cs: [[EDIT[c % len(EDIT)], (c // 8) % 11, (c // 88) % 5] for c in cs])}))
     return [("roundtrips", roundtrip, 1200000 if big else 12000), ("record-files", file_case, 200000 if big else 3000)]
 
